@@ -15,6 +15,7 @@ import (
 //     source `s...` of another append (copied), or — for a local x itself — an operand of return,
 //   - every whole-value occurrence of x (when p = x.f) is a return operand (`return x` / `return &x`), or a
 //     declaration / assignment from a composite literal whose p field is fresh.
+//
 // Also refused anywhere in the function: function literals, go, defer, select, send, goto, labels, range, type switch.
 func (c *puFn) checkOwnership() error {
 	var bad error
